@@ -83,11 +83,21 @@ def classschema(name, qualname, fields, invariant=()):
 
 
 class Lemma:
-    def __init__(self, name, props, vars, hyps, goal, notes='', hints=()):
-        self.name, self.props, self.vars, self.hyps, self.goal = name, list(props), dict(vars), list(hyps), goal
-        self.notes = notes
-        self.hints = list(hints)
+    def __init__(self, name, props, builder, notes=''):
+        self.name, self.props, self.builder, self.notes = name, list(props), builder, notes
 
 
-def lemma(name, props, vars, hyps, goal, **kw):
-    LEMMAS.append(Lemma(name, props, vars, hyps, goal, **kw))
+def lemma(name, props, builder, notes=''):
+    LEMMAS.append(Lemma(name, props, builder, notes))
+
+
+STRUCTURAL = []     # dict(name, props, fn(repo) -> [(name, ok, detail)])
+BOUNDED = []        # dict(name, props, fn(tier, seed) -> dict)
+
+
+def structural(name, props, fn, anchor=''):
+    STRUCTURAL.append(dict(name=name, props=list(props), fn=fn, anchor=anchor))
+
+
+def bounded(name, props, fn, quick=True):
+    BOUNDED.append(dict(name=name, props=list(props), fn=fn, quick=quick))
